@@ -24,23 +24,26 @@ def sched_tie(pid, scen, quick, thorough, rand=5):
 
 PROPS['C06'] = dict(
     target='Props/C06',
-    theorems=['C06_seq', 'C06_seq_revert', 'C06_conc_fresh_refuted'],
+    theorems=['C06_seq', 'C06_seq_revert', 'C06_conc', 'C06_conc_locked', 'C06_conc_from', 'C06_conc_fresh_refuted'],
     ties=[sched_tie('C06', 'c06', 60, 3000)],
     rule=CONC_RULE + '; C06 scenarios: 2 and 3 spenders of one source whose balance covers one (plain postings; allowing overdraft up to 50), unbounded-overdraft and force controls, '
          'non-forced revert racing a spend of the funds it needs, opposite transfers (deadlock + forgeLog retry). Monitor (independent of the model): right after every COMMIT the committed '
          'balance of the committing request\'s bounded non-world source is >= -allowance (0 / X; unbounded and forced requests are not checked).',
-    explanation='PARTIAL. Proved: C06_seq (any postings request accepted without force never takes a non-world account below min(0, its balance): induction over the postings list on Core.feasible), '
-                'C06_seq_revert (a non-forced revert is accepted only if every non-world source of the reversed postings stays >= 0 on the balances read). Concurrent statement: REFUTED for never-used '
-                '(account, asset) pairs -- C06_conc_fresh_refuted (vm_compute witness: two "send 50 allowing overdraft up to 50" on a pair without accounts_volumes row; the second GetBalances waits '
+    explanation='Proved: C06_seq (any postings request accepted without force never takes a non-world account below min(0, its balance): induction over the postings list on Core.feasible), '
+                'C06_seq_revert (a non-forced revert is accepted only if every non-world source of the reversed postings stays >= 0 on the balances read). CONCURRENT, for ALL schedules and any '
+                'number of writers (induction over the schedule on Ledger/Conc.v, invariants ConcProofs.invA / invB): C06_conc -- if the (account, asset) row of every bounded source exists before the '
+                'race, after each COMMIT the committed balance of the committing request\'s source is >= -allowance (two-phase locking: between GetBalances -- row lock taken, balance read = committed '
+                'balance -- and COMMIT no other writer changes the row, so the funds check ran on the balance the COMMIT applies to); C06_conc_locked -- the same for every COMMIT that held the lock, with no '
+                'hypothesis on the state; C06_conc_from -- from any state satisfying the invariants. WITHOUT the hypothesis the statement is REFUTED for never-used (account, asset) pairs: '
+                'C06_conc_fresh_refuted (vm_compute witness: two "send 50 allowing overdraft up to 50" on a pair without accounts_volumes row; the second GetBalances waits '
                 'on the in-flight zero row, skips it (ON CONFLICT DO NOTHING), its SELECT FOR UPDATE runs on the pre-wait snapshot, sees no row, locks nothing, reports 0: alice ends at -100); the '
-                'same schedule replayed on the real stack is the known finding [c06-overdrawn-fresh-pair]. For pairs that already have a row the concurrent invariant (row lock held from GetBalances '
-                'to COMMIT => the funds check ran on the balance the commit applies to) is NOT proved for all schedules; it is checked by the exhaustive bounded exploration against the real stack '
-                '(no violation on any existing-pair schedule) and by the exact model/implementation match.',
+                'same schedule replayed on the real stack is the known finding [c06-overdrawn-fresh-pair]. Tie: exact outcome + event-trace match of model and real stack on every explored schedule.',
     trusted=CONC_TRUST,
     technique='Coq proof (sequential: induction over postings; concurrent: interleaving model with vm_compute refutation witness) + deterministic schedule exploration of the real stack on pgsem with exact comparison against the extracted model',
-    level_text='Sequential no-overdraft theorem for every postings request and the revert check (Core.v); concurrent statement refuted for never-used (account, asset) pairs by a witness schedule of the '
-               'interleaving model Ledger/Conc.v, reproduced on the real code; existing pairs: exhaustive bounded schedule exploration (<= 2 deviations, 2-3 writers) + random schedules, model = implementation on every explored schedule.',
-    level_note='Trusted: Coq kernel, extraction, pgsem\'s transcription of PostgreSQL READ COMMITTED locking (Appendix C), the cooperative scheduler. Not proved: the all-schedules 2PL invariant for existing pairs. '
+    level_text='Sequential no-overdraft theorem for every postings request and the revert check (Core.v); concurrent theorem for ALL schedules and any number of writers on the interleaving model Ledger/Conc.v '
+               '(2PL invariant) when the source rows exist; refuted for never-used (account, asset) pairs by a witness schedule reproduced on the real code; model tied to the real stack by exact comparison on '
+               'exhaustively explored bounded schedules (<= 2 deviations, 2-3 writers) + random schedules.',
+    level_note='Trusted: Coq kernel, extraction, pgsem\'s transcription of PostgreSQL READ COMMITTED locking (Appendix C), the cooperative scheduler. The model covers single-posting requests (create plain / overdraft / unbounded / force, revert); multi-posting requests are covered sequentially (C06_seq) only. '
                'Real lock timing and deadlock-victim choice are modelled, not observed.',
 )
 
@@ -48,31 +51,36 @@ _sched_note = (' Concurrent part (TIE-S sched): deterministic schedule explorati
                'see py/props.d/95-conc.py for the rule and the trusted base of that tie.')
 
 PROPS['C13']['ties'].append(sched_tie('C13', 'c13', 60, 3000))
-PROPS['C13']['theorems'] += ['C13_conc_refuted']
-PROPS['C13']['explanation'] += (' CONCURRENT: the outcome statement is REFUTED (C13_conc_refuted, vm_compute witness on Ledger/Conc.v, reproduced on the real stack = known finding [c13-business-error]): a request '
-                               'that missed the key in its lookup and then waits for the winner reads the state the winner left and returns insufficient funds / already reverted. "At most one log per key" '
-                               'held on every explored schedule (monitor [c13-two-logs]); its all-schedules proof is not done (ids: C16_conc_ids_unique).' + _sched_note)
+PROPS['C13']['theorems'] += ['C13_conc_at_most_one_log', 'C13_conc_at_most_one_log_from', 'C13_conc_error_goes_to_lookup', 'C13_conc_lookup_returns_original']
+PROPS['C13']['explanation'] += (' CONCURRENT: PROVED for ALL schedules and any number of requests (C13_conc_at_most_one_log, induction over the schedule on Ledger/Conc.v, unique-index wait rule): at most one '
+                               'committed log per idempotency key. Outcomes: on the code as found the statement was refuted and reproduced on the real stack (known finding KF-C13-loser-business-error, '
+                               '[c13-business-error]: the loser of the race answered insufficient funds / already reverted); REPAIRED (fixes/01-ik-race-business-error.diff: forgeLog/forgeLogRetry look the key up once '
+                               'more before returning an error of a keyed request). The model follows the repaired code; C13_conc_error_goes_to_lookup (a keyed request never returns a business error straight from its '
+                               'rolled-back transaction) and C13_conc_lookup_returns_original (the lookup answers with the committed log of the key as a hit) hold in every state, hence under every schedule; the monitor '
+                               '[c13-business-error] stays armed. A log committed after that final lookup can still be missed (inherent to a lookup; the caller then holds a plain error and a retry returns the hit).' + _sched_note)
 PROPS['C13']['trusted'] = PROPS['C13']['trusted'] + CONC_TRUST
 
 PROPS['C14']['ties'].append(sched_tie('C14', 'c14', 80, 3000))
-PROPS['C14']['theorems'] += ['C14_conc_ids_unique']
+PROPS['C14']['theorems'] += ['C14_conc_unique', 'C14_conc_unique_from', 'C14_conc_ids_unique']
 PROPS['C14']['explanation'] += (' CONCURRENT: racing creates sharing a reference (2-3 racers, disjoint accounts or contending on world) explored exhaustively for <= 2 deviations: exactly one winner, losers get '
-                               'reference-conflict, no duplicate reference stored; the all-schedules proof of the unique-index rule on the model is not done (only id uniqueness is).' + _sched_note)
+                               'reference-conflict, no duplicate reference stored. PROVED for ALL schedules and any number of racers (C14_conc_unique, induction over the schedule on Ledger/Conc.v): at most one committed '
+                               'transaction per non-empty reference.' + _sched_note)
 PROPS['C14']['trusted'] = PROPS['C14']['trusted'] + CONC_TRUST
 
 PROPS['C15']['ties'].append(sched_tie('C15', 'c15', 80, 3000))
-PROPS['C15']['theorems'] += ['C15_conc_ids_unique']
+PROPS['C15']['theorems'] += ['C15_conc_once', 'C15_conc_marked', 'C15_conc_once_from', 'C15_conc_ids_unique']
 PROPS['C15']['explanation'] += (' CONCURRENT: 2-3 racing reverts of one transaction (forced and not) explored exhaustively for <= 2 deviations: exactly one winner, losers already-reverted, balances neutral, one revert '
-                               'transaction; the all-schedules proof (row lock + re-evaluation of "reverted_at is null") on the model is not done.' + _sched_note)
+                               'transaction. PROVED for ALL schedules and any number of racers (C15_conc_once, induction over the schedule on Ledger/Conc.v: row lock of the UPDATE + re-evaluation of "reverted_at is null" on '
+                               'the newest version): a transaction is reverted at most once, and a reverted target stays marked (C15_conc_marked).' + _sched_note)
 PROPS['C15']['trusted'] = PROPS['C15']['trusted'] + CONC_TRUST
 
 PROPS['C16']['ties'].append(sched_tie('C16', 'c16', 100, 3000))
-PROPS['C16']['theorems'] += ['C16_conc_ids_unique', 'C16_conc_ids_unique_from', 'C16_conc_tx_order_refuted', 'C16_conc_log_order_unlocked_refuted']
+PROPS['C16']['theorems'] += ['C16_conc_ids_unique', 'C16_conc_ids_unique_from', 'C16_conc_log_order_locked', 'C16_conc_log_order_locked_from', 'C16_conc_tx_order_refuted', 'C16_conc_log_order_unlocked_refuted']
 PROPS['C16']['explanation'] += (' CONCURRENT: C16_conc_ids_unique -- for ALL schedules of any number of writers (induction over the schedule) transaction ids and log ids of committed and in-flight rows are '
                                'pairwise distinct and below the sequence. "A later COMMIT never receives a smaller id" is REFUTED for transaction ids even with HASH_LOGS=SYNC (C16_conc_tx_order_refuted: '
                                'InsertTransaction draws its id before InsertLog takes the advisory lock) and for log ids without the lock (C16_conc_log_order_unlocked_refuted); both witnesses are reproduced on '
-                               'the real stack (known findings [c16-txid-commit-order], [c16-logid-commit-order-nolock]). Log ids under the lock followed commit order on every explored schedule '
-                               '(monitor [c16-logid-commit-order-sync] never fired); that all-schedules proof is not done.' + _sched_note)
+                               'the real stack (known findings [c16-txid-commit-order], [c16-logid-commit-order-nolock]). PROVED for ALL schedules (C16_conc_log_order_locked): with HASH_LOGS=SYNC (advisory lock taken '
+                               'before nextval and held until COMMIT) the log ids published by successive COMMITs are strictly increasing.' + _sched_note)
 PROPS['C16']['trusted'] = PROPS['C16']['trusted'] + CONC_TRUST
 
 # C09, concurrent part: the same schedule exploration with HASH_LOGS=SYNC; the chain monitor (every stored hash chains from the
